@@ -2801,9 +2801,11 @@ class VM:
         # The 'arguments' slot is at index len(compiled.params)
         arguments_slot = len(compiled.params)
         if (
-            arguments_slot < compiled.num_locals
+            not compiled.is_arrow
+            and arguments_slot < compiled.num_locals
             and compiled.locals[arguments_slot] == "arguments"
-        ):  # arrow functions have no arguments object of their own
+        ):  # arrow functions have no arguments object of their own: a
+            # `var arguments` of theirs is an ordinary variable, whatever its slot
             arguments_obj = JSArray()
             arguments_obj._elements = list(args)
             # an ordinary object as far as inheritance goes (not an Array)
